@@ -21,7 +21,7 @@ IsObjLike(v) == v.t \in {"cobj", "fn"}
 IsPrimV(v) == ~IsObjLike(v)
 
 S_objObject == <<91, 111, 98, 106, 101, 99, 116, 32, 79, 98, 106, 101, 99, 116, 93>>   \* "[object Object]"
-ThrownMarker(o, which) == StrV(IF which = "vo" THEN <<84, 118, 48 + o.id>> ELSE <<84, 115, 48 + o.id>>)   \* "Tv<id>" / "Ts<id>"
+ThrownMarker(o, which) == StrV((IF which = "vo" THEN <<84, 118>> ELSE <<84, 115>>) \o NumToStr(I(o.id)))   \* "Tv<id>" / "Ts<id>"
 
 (* one step of 8.12.8: try method `which` of conversion object o.            *)
 (* [done: a result is final, r: the result, log]                             *)
@@ -38,11 +38,16 @@ TryConv(o, which, log) ==
 FnSource == <<102, 110>>     \* the text of a function is implementation-defined; never compared
 
 (* 8.12.8 [[DefaultValue]] / 9.1 ToPrimitive *)
+(* conversion objects with id >= 50 are Date objects (with own scripted valueOf / toString):     *)
+(* 8.12.8 "when called with no hint, as if the hint were Number, unless O is a Date object, in *)
+(* which case as if the hint were String" (the + operator 11.6.1 and == 11.9.3 pass no hint)   *)
+IsDateLike(v) == v.t = "cobj" /\ v.id >= 50
 ToPrimitive(v, hint, log) ==
     IF IsPrimV(v) THEN R(v, log)
     ELSE IF v.t = "fn" THEN R(StrV(FnSource), log)
-    ELSE LET first  == IF hint = "string" THEN "ts" ELSE "vo"
-             second == IF hint = "string" THEN "vo" ELSE "ts"
+    ELSE LET strFirst == hint = "string" \/ (hint = "default" /\ IsDateLike(v))
+             first  == IF strFirst THEN "ts" ELSE "vo"
+             second == IF strFirst THEN "vo" ELSE "ts"
              a == TryConv(v, first, log)
          IN  IF a.done THEN a.r
              ELSE LET b == TryConv(v, second, a.r.log)
